@@ -498,7 +498,8 @@ def validate_frontmatter(
 
     try:
         parsed = yaml.safe_load(raw_frontmatter)
-    except yaml.YAMLError as e:
+    except (yaml.YAMLError, ValueError) as e:
+        # ValueError: a YAML timestamp that is not a real date (e.g. 2001-02-30)
         errors.append(
             ValidationError(
                 code="E_FM_PARSE",
